@@ -76,3 +76,19 @@ Theorem C09_registry_short_input_is_an_error : forall known b, Z.lt (blen b) reg
   unmarshal unmarshal_len_guard registry_prefix_size known b = Ok UErrShort.
 Proof. exact short_input_is_an_error. Qed.
 Print Assumptions C09_registry_short_input_is_an_error.
+
+Theorem C09_running_instance_passed_every_validation : forall k table chain_init opts c,
+  run_ctor k table chain_init opts = CRunning c ->
+  forall v, In v (c_checks k ++ c_final_checks k) -> eval_cond c (v_cond v) = false.
+Proof. exact running_passed_every_check. Qed.
+Print Assumptions C09_running_instance_passed_every_validation.
+
+Theorem C09_mirror_validates_every_required_option : uncovered ctor_NewMirror option_table = [].
+Proof. exact mirror_validates_every_required_option. Qed.
+Print Assumptions C09_mirror_validates_every_required_option.
+
+(** full statement [uncovered ctor_New option_table = []] is false on the tree (known finding); proved part: *)
+Theorem C09_engine_validates_every_required_option_partial :
+  uncovered ctor_New option_table = ["WithCommittedHeaderStore"%string].
+Proof. exact engine_validates_every_required_option_partial. Qed.
+Print Assumptions C09_engine_validates_every_required_option_partial.
